@@ -306,6 +306,31 @@ func vHostile(r *rand.Rand, b vBase, nFlips int) []vVariant {
 	unp.unprot = map[string]interface{}{"kid": b.attacker.kid, "x": "a.b.c"}
 	add("json-one-sig-unprotected-kid", "json-one-sig", "signer", vGeneralJSON([]*vSig{unp}, b.payload, false), natural)
 
+	// 4b. JSON serialisation crafted so that a consumer which verifies over bytes.Split(token, ".")[0:2] checks the
+	// signature over a fixed prefix `{"x":"a.b` that does not cover the payload at all (signed by the legitimate key)
+	{
+		const prefix = `{"x":"a.b`
+		mk := func(n int) string {
+			sg := b.sigFor(b.signer)
+			prot := vEnc.EncodeToString(vJSON(sg.hdr))
+			sig := ""
+			if signer, err := jws.NewSigner(sg.signAlg); err == nil {
+				if raw, err := signer.Sign([]byte(prefix), sg.signKey); err == nil {
+					sig = vEnc.EncodeToString(raw)
+				}
+			}
+			one := `{"protected":"` + prot + `","signature":"` + sig + `"}`
+			arr := one
+			for i := 1; i < n; i++ {
+				arr += "," + one
+			}
+			forged := vEnc.EncodeToString([]byte(`{"forged":"payload not covered by any signature"}`))
+			return prefix + `.c","payload":"` + forged + `","signatures":[` + arr + `]}`
+		}
+		add("json-split-confusion-one-sig", "split-confusion", "nobody", mk(1), natural)
+		add("json-split-confusion-two-sigs", "split-confusion", "nobody", mk(2), natural)
+	}
+
 	// 5. keys supplied in headers
 	type emb struct {
 		name string
@@ -363,14 +388,17 @@ func vHostile(r *rand.Rand, b vBase, nFlips int) []vVariant {
 		p2 := []string{parts[0], parts[1], parts[2]}
 		p2[seg] = vFlip(parts[seg], pos)
 		class := "tampered"
-		if seg == 2 {
-			before, _ := vEnc.DecodeString(parts[2])
-			after, err := vEnc.DecodeString(p2[2])
-			if err == nil && string(before) == string(after) {
-				class = "sig-reencoded" // same signature bytes (unused trailing bits)
-			}
+		// a flip of the unused trailing bits of a segment's last character decodes to the same bytes: that is a
+		// re-encoding of the same content, not a change of what was signed
+		before, _ := vEnc.DecodeString(parts[seg])
+		if after, err := vEnc.DecodeString(p2[seg]); err == nil && string(before) == string(after) {
+			class = "reencoded"
 		}
-		add(fmt.Sprintf("flip-seg%d@%d", seg, pos), class, "nobody", strings.Join(p2, "."), natural)
+		by := "nobody"
+		if class == "reencoded" {
+			by = "signer"
+		}
+		add(fmt.Sprintf("flip-seg%d@%d", seg, pos), class, by, strings.Join(p2, "."), natural)
 	}
 
 	// 8. re-encodings of the compact form (same decoded content)
@@ -978,6 +1006,18 @@ func TestVerifC17(t *testing.T) {
 						}
 					}
 					verd["keyfound"], verd["verified"] = found, verified
+					// what the library itself says about the (single) signature: jws.Verify over the parsed message
+					if info.Parses && len(info.Sigs) == 1 {
+						if key, err := keyFunc(info.Sigs[0].Kid); err == nil {
+							_, err := jws.Verify([]byte(v.Tok), jws.WithKey(jwa.SignatureAlgorithm(info.Sigs[0].Alg), key))
+							verd["verifiedlib"] = err == nil
+							if !info.SplitOK {
+								verd["keyfound"] = []bool{true}
+							}
+						} else if !info.SplitOK {
+							verd["keyfound"] = []bool{false}
+						}
+					}
 					res := vRecover(func() string { _, err := nutsCrypto.ParseJWS([]byte(v.Tok), keyFunc); return vOK(err) })
 					out.emit(vConsumerOp{Op: "consume", C: "parsejws", Name: v.Name, Class: v.Class, HAlg: v.HAlg, By: v.By, Info: info, V: verd}, res)
 				}
@@ -1066,14 +1106,16 @@ func TestVerifC17(t *testing.T) {
 				if !want("apitoken", v.Name) {
 					continue
 				}
-				a := mw.analyse(v.Tok)
-				info, _ := vAnalyse(v.Tok)
-				anyVerified := false
-				for _, b := range a.Verifies {
-					anyVerified = anyVerified || b
+				hdr := "Bearer " + v.Tok
+				f := strings.Fields(hdr)
+				cred := ""
+				if len(f) == 2 {
+					cred = f[1]
 				}
-				verd := map[string]interface{}{"credlen": len(v.Tok), "verifies": a.Verifies, "claims": a.Claims, "keys": []string{apiKeys[0].name, apiKeys[1].name, apiKeys[2].name, apiKeys[3].name},
-					"aud": "verif-aud", "now": now.Unix(), "spaces": len(strings.Fields(v.Tok)) != 1 || strings.TrimSpace(v.Tok) != v.Tok}
+				a := mw.analyse(cred)
+				info, _ := vAnalyse(cred)
+				verd := map[string]interface{}{"nfields": len(f), "credlen": len(cred), "verifies": a.Verifies, "claims": a.Claims,
+					"keys": []string{apiKeys[0].name, apiKeys[1].name, apiKeys[2].name, apiKeys[3].name}, "aud": "verif-aud", "now": now.Unix()}
 				res := strings.SplitN(mw.run("Bearer "+v.Tok), " ", 2)[0]
 				if res == "granted" {
 					res = "accept"
